@@ -424,7 +424,7 @@ class Ctx:
             fn = os.path.join(d, name + ".v")
             with open(fn, "w") as f:
                 f.write(requires + "\n")
-                f.write("Definition cs := [\n" + ";\n".join(ts) + "\n].\n")
+                f.write("Definition cs : list case := [\n" + ";\n".join(ts) + "\n].\n")
                 f.write("Eval vm_compute in (RV.Prelude.bad_idx (fun c => %s c) cs, RV.Prelude.bad_idx (fun c => %s c) cs).\n" % (agree, prop_ok))
             rc, out = sh(["coqc", "-noglob"] + self._coq_paths(group) + [name + ".v"], cwd=d, timeout=timeout)
             for ext in (".v", ".vo", ".vok", ".vos", ".glob"):
